@@ -86,6 +86,10 @@ def programs(draw, target):
             pos += size
     ops.append({"op": "read", "what": draw(st.sampled_from(reads)), "arg": 0})
     head["ops"] = ops
+    if target == "hexital" and len(head["members"]) >= 2 and draw(st.integers(0, 3)) == 0:
+        # the last member (possibly on a timeframe of its own) joins through add_indicator after some appends:
+        # the candles appended from then on must reach its timeframe like every other
+        head["late_member_at"] = draw(st.integers(1, max(1, len(ops) - 1)))
     # a candle lifespan (steady state: one candle in, one out) in a third of the programs
     head["lifespan"] = draw(st.sampled_from((None, None, 4 * step, 9 * step)))
     return head
@@ -241,7 +245,10 @@ def _make(case, reads=False):
         for ind in inds:
             for what in case.get("pre_reads", []):
                 str(ind) if what == "str" else ind.as_list() if what == "as_list" else getattr(ind, what)
-    return Hexital("c19", [], inds, candles_lifespan=life or timedelta(hours=12), **({"timeframe": case["tf"]} if case.get("tf") else {})), names
+    first = inds[:-1] if case.get("late_member_at") else inds
+    hx = Hexital("c19", [], first, candles_lifespan=life or timedelta(hours=12), **({"timeframe": case["tf"]} if case.get("tf") else {}))
+    hx._c19_late = inds[-1] if case.get("late_member_at") else None
+    return hx, names
 
 
 def run_case(case) -> Result:
@@ -256,8 +263,20 @@ def run_case(case) -> Result:
         labels.append("hexital_multi_tf")
     state = _hx_state if is_hx else _state
     sent, read_then_append, seen_read = [], False, False
+    all_names = names
+    if is_hx and case.get("late_member_at") is not None:
+        names = all_names[:-1]  # what is registered so far
     for k, op in enumerate(case["ops"]):
         where = f"op {k} {op['op']}:{op.get('what', op.get('enc'))}"
+        if is_hx and case.get("late_member_at") == k:
+            try:
+                for obj in (real, twin):
+                    obj.add_indicator(obj._c19_late)
+                    obj.calculate()
+                names = all_names
+                labels.append("member_added_later")
+            except Exception:
+                return Result([], read_then_append, labels + ["twin_raises"])
         if op["op"] == "cursor":
             try:
                 for obj in (real, twin):
